@@ -3,7 +3,6 @@ package main
 import (
 	"fmt"
 	"go/token"
-	"go/types"
 	"strings"
 
 	"golang.org/x/tools/go/ssa"
@@ -36,8 +35,8 @@ func runC08(c *Ctx) {
 	r := c.R
 	r.Doc("J0", "role resolution", 3)
 	r.Doc("K1", "copy mode: payload is a fresh whole clone with no other use", 3)
-	r.Doc("K2", "no-copy: send is followed by the release receive (v1: or `unreleased` set on stop) before the sending function returns", 3)
-	r.Doc("K3", "v1: ingest/reset/send of the buffer dominated by !unreleased with no setter in between", 3)
+	r.Doc("K2", "no-copy: after a send the release is received (v1: or `unreleased` set on stop) before the buffer is touched, anything else is sent, or the next receive", 5)
+	r.Doc("K3", "v1: ingest/reset/send of the buffer only under a `!unreleased` test with no setter since", 3)
 	r.Doc("K4", "the buffer has no second reference: it flows only to append/len/reslice/output", 3)
 	r.Doc("K5", "unite never writes through a received input slice", 1)
 	for _, jr := range joinDiscs(c) {
@@ -207,14 +206,11 @@ func (p *Prog) payloadFormsIn(callee *ssa.Function, site *ssa.Call, caller *ssa.
 func checkK1(c *Ctx, jr *joinRoles) {
 	p := jr.p
 	n := 0
-	for _, ss := range p.SendSites(jr.emitFn) {
-		if p.chanRole(ss.Chan) != "field:output" {
-			continue
-		}
+	for _, ss := range jr.emitSites {
 		n++
 		var problems []string
 		var forms []payloadForm
-		p.payloadForms(jr.emitFn, ss.Val, p.modeOf(ss.In.Block()), false, nil, 0, &forms)
+		p.payloadForms(ss.Fn, ss.Val, p.modeOf(ss.In.Block()), false, nil, 0, &forms)
 		for _, f := range forms {
 			if f.origin == "other" {
 				problems = append(problems, "UNDECIDED: payload origin "+f.detail)
@@ -240,7 +236,7 @@ func checkK1(c *Ctx, jr *joinRoles) {
 		if len(forms) == 0 {
 			problems = append(problems, "UNDECIDED: no payload form found")
 		}
-		c.R.Check(len(problems) == 0, "K1", joinKey(jr, jr.emitFn, fmt.Sprintf("send.%d", n)), p.InstrPos(ss.In), fmt.Sprintf("%d payload forms; copy-mode forms are fresh clones", len(forms)), strings.Join(dedup(problems), "; "))
+		c.R.Check(len(problems) == 0, "K1", joinKey(jr, ss.Fn, fmt.Sprintf("send.%d", n)), p.InstrPos(ss.In), fmt.Sprintf("%d payload forms; copy-mode forms are fresh clones", len(forms)), strings.Join(dedup(problems), "; "))
 	}
 }
 
@@ -251,54 +247,6 @@ func modeName(m string) string {
 	return m
 }
 
-func checkK2(c *Ctx, jr *joinRoles) {
-	p := jr.p
-	fn := jr.emitFn
-	var problems []string
-	releaseRole := "field:release"
-	if jr.v1 {
-		releaseRole = "field:opts.Released"
-	}
-	fl := &Flow{P: p, ContextInsensitive: true}
-	fl.Instr = func(fr *Frame, st string, in ssa.Instruction) []string {
-		if _, ok := p.emitInstr(in); ok {
-			return []string{"sent"}
-		}
-		if u, ok := in.(*ssa.UnOp); ok && u.Op == token.ARROW && p.chanRole(u.X) == releaseRole && st == "sent" {
-			return []string{"released"}
-		}
-		if st2, ok := fieldStore(in, "unreleased"); ok && st == "sent" {
-			if cv, isC := st2.Val.(*ssa.Const); isC && constString(cv) == "true" {
-				return []string{"frozen"}
-			}
-		}
-		return nil
-	}
-	fl.Edge = func(fr *Frame, st string, from *ssa.BasicBlock, succ int) []string {
-		if nc, ok := p.modeEdge(CondEdge{from, succ}); ok && !nc {
-			return []string{} // contradicts the no-copy assumption
-		}
-		if _, ok := p.emitEdge(from, succ); ok {
-			return []string{"sent"}
-		}
-		if _, cs, _ := p.CaseOnEdge(from, succ); cs != nil && cs.State.Dir == types.RecvOnly && p.chanRole(cs.State.Chan) == releaseRole && st == "sent" {
-			return []string{"released"}
-		}
-		return nil
-	}
-	fl.Exit = func(fr *Frame, st string, ret *ssa.Return) []string {
-		if fr.Parent == nil && st == "sent" {
-			problems = append(problems, "in no-copy mode a path returns at "+p.InstrPos(ret)+" after the output send without having received the release signal"+map[bool]string{true: " or frozen the buffer (unreleased = true)", false: ""}[jr.v1]+": the buffer is reused while the consumer owns the slice")
-		}
-		return nil
-	}
-	exits := fl.Run(fn, []string{"idle"})
-	if !fl.sawState("sent") {
-		problems = append(problems, "UNRESOLVED-ANCHOR: no output send reached under the no-copy assumption")
-	}
-	_ = exits
-	c.R.Check(len(problems) == 0, "K2", joinKey(jr, fn, ""), p.Pos(fn.Pos()), "send -> release receive (or freeze) on every no-copy path", strings.Join(dedup(problems), "; "))
-}
 
 // mayWriteField: fn (transitively) contains a store to the named field.
 func (p *Prog) mayWriteField(fn *ssa.Function, field string) bool {
@@ -314,72 +262,6 @@ func (p *Prog) mayWriteField(fn *ssa.Function, field string) bool {
 	return false
 }
 
-func checkK3(c *Ctx, jr *joinRoles) {
-	p := jr.p
-	n := 0
-	for _, fn := range jr.rt.Funcs {
-		for _, b := range fn.Blocks {
-			for _, in := range b.Instrs {
-				what := ""
-				if _, ok := p.ingestOf(in); ok {
-					what = "ingest"
-				} else if p.isReset(in) {
-					what = "reset"
-				} else if call, ok := in.(*ssa.Call); ok && p.Callee(call) == jr.emitFn && p.isFieldLoad(call.Call.Args[1], "join") {
-					what = "send"
-				}
-				if what == "" {
-					continue
-				}
-				n++
-				ok := false
-				why := "no dominating test of `unreleased`"
-				for _, e := range InstrDomEdges(in) {
-					val, isU := p.unreleasedEdge(e.From, e.Succ)
-					if !isU || val {
-						continue
-					}
-					// no setter between the guard and the site
-					start := e.From.Succs[e.Succ]
-					bad := ""
-					seen := map[*ssa.BasicBlock]bool{}
-					var walk func(x *ssa.BasicBlock)
-					walk = func(x *ssa.BasicBlock) {
-						if seen[x] || x == e.From || !reaches(x, in.Block()) {
-							return
-						}
-						seen[x] = true
-						for _, y := range x.Instrs {
-							if y == in {
-								return
-							}
-							if _, isSt := fieldStore(y, "unreleased"); isSt {
-								bad = p.InstrPos(y)
-							}
-							if call, isCall := y.(*ssa.Call); isCall {
-								if cal := p.Callee(call); cal != nil && p.IsProduct(cal) && p.mayWriteField(cal, "unreleased") {
-									bad = p.InstrPos(y)
-								}
-							}
-						}
-						if x != in.Block() {
-							for _, s := range x.Succs {
-								walk(s)
-							}
-						}
-					}
-					walk(start)
-					if bad == "" {
-						ok = true
-					} else {
-						why = "the flag may be set at " + bad + " after it was tested"
-					}
-				}
-				c.R.Check(ok, "K3", joinKey(jr, fn, fmt.Sprintf("%s.%d", what, n)), p.InstrPos(in), what+" guarded by !unreleased", what+" of the buffer is not protected by a fresh `!unreleased` test ("+why+"): after a stop before release the delivered slice is touched again")
-			}
-		}
-	}
-}
 
 func checkK4(c *Ctx, jr *joinRoles) {
 	p := jr.p
@@ -444,7 +326,7 @@ func checkK4(c *Ctx, jr *joinRoles) {
 			}
 		}
 	}
-	c.R.Check(len(problems) == 0 && loads > 0, "K4", jr.key, p.Pos(jr.flush.Pos()), fmt.Sprintf("%d loads of the buffer, each flowing only to append/len/reslice/output", loads), strings.Join(dedup(problems), "; "))
+	c.R.Check(len(problems) == 0 && loads > 0, "K4", jr.key, p.Pos(jr.entry.Pos()), fmt.Sprintf("%d loads of the buffer, each flowing only to append/len/reslice/output", loads), strings.Join(dedup(problems), "; "))
 }
 
 func isStoredToField(v ssa.Value, field string) bool {
@@ -465,122 +347,10 @@ func isStoredToField(v ssa.Value, field string) bool {
 	return n > 0
 }
 
-func checkK5(c *Ctx, jr *joinRoles) {
-	p := jr.p
-	ai := p.alias()
-	cw := ai.ContentWriteParams(jr.accept)
-	idx := len(jr.accept.Params) - 1
-	var where []string
-	if cw[idx] {
-		for g := range p.Reach(jr.accept) {
-			for _, w := range ai.contentWritesIn(g) {
-				for _, root := range ai.Roots(w.Target) {
-					if root.Kind == "param" {
-						where = append(where, fmt.Sprintf("%s at %s", w.How, p.InstrPos(w.In)))
-					}
-				}
-			}
-		}
-	}
-	c.R.Check(!cw[idx], "K5", joinKey(jr, jr.accept, ""), p.Pos(jr.accept.Pos()), "input slices are only read", "a received input slice may be written through: "+strings.Join(dedup(where), "; "))
-}
 
 // ---------------------------------------------------------------- C09 / C10 shared
 
-// flushGuards classifies every call site of the flush function (M1).
-func checkM1(c *Ctx, jr *joinRoles) {
-	p := jr.p
-	n := 0
-	for _, fn := range jr.rt.Funcs {
-		for _, b := range fn.Blocks {
-			for _, in := range b.Instrs {
-				call, ok := in.(ssa.CallInstruction)
-				if !ok || p.Callee(call) != jr.flush {
-					continue
-				}
-				n++
-				key := joinKey(jr, fn, fmt.Sprintf("flush.%d", n))
-				if _, isDefer := in.(*ssa.Defer); isDefer {
-					isLoop := false
-					for _, l := range jr.loops {
-						if l == fn {
-							isLoop = true
-						}
-					}
-					c.R.Check(isLoop && b.Index == 0, "M1", key, p.InstrPos(in), "end of input: deferred in a loop function", "flush deferred outside a loop function")
-					continue
-				}
-				class := ""
-				for _, e := range InstrDomEdges(in) {
-					if t := p.termCmpOnEdge(e); t != nil {
-						switch {
-						case t.impliesLess("JS", "lenB", false):
-							class = "full: " + t.String()
-						case jr.unite && t.impliesLess("JS", "lenItem", false):
-							class = "oversize input slice: " + t.String()
-						case jr.unite && t.impliesLess("JS", "lenB+lenItem", true):
-							class = "input slice would not fit: " + t.String()
-						}
-					}
-					if jr.timeout != nil && p.edgeIsCallResult(e, func(f *ssa.Function) bool { return f == jr.timeout }, true) {
-						// must be inside the ticker clause
-						for _, e2 := range InstrDomEdges(in) {
-							if _, cs, _ := p.CaseOnEdge(e2.From, e2.Succ); cs != nil && strings.HasPrefix(p.chanRole(cs.State.Chan), "ticker:") {
-								class = "timeout: ticker clause && " + jr.timeout.Name() + "()"
-							}
-						}
-					}
-				}
-				c.R.Check(class != "", "M1", key, p.InstrPos(in), class, "flush called under "+describeEdges(p, InstrDomEdges(in))+": not one of {buffer full, timeout expired in the ticker clause, end of input"+map[bool]string{true: ", oversize slice, slice would not fit", false: ""}[jr.unite]+"}: a slice is cut short prematurely")
-			}
-		}
-	}
-}
 
-func checkT4(c *Ctx, jr *joinRoles) {
-	p := jr.p
-	if jr.timeout == nil {
-		if jr.hasTimedLoop() {
-			c.R.Fail("T4", jr.key, "-", "UNRESOLVED-ANCHOR: no timeout predicate tested in the ticker clause")
-		}
-		return
-	}
-	fn := jr.timeout
-	var problems []string
-	for _, s := range p.resultSyms(fn, 0) {
-		bo, ok := s.V.(*ssa.BinOp)
-		if !ok {
-			problems = append(problems, "UNDECIDED: predicate returns "+s.String())
-			continue
-		}
-		cm := p.NormCmp(bo, true)
-		if cm == nil {
-			problems = append(problems, "UNDECIDED: predicate returns "+s.String())
-			continue
-		}
-		isTimeout := func(x *Sym) bool {
-			_, path, ok := deepStrip(x).FieldPath()
-			return ok && strings.Join(path, ".") == "opts.Timeout"
-		}
-		isElapsed := func(x *Sym) bool {
-			x = deepStrip(x)
-			if x.Op == "call" && x.Name == "time.Since" && len(x.Args) == 1 {
-				_, path, ok := x.Args[0].FieldPath()
-				return ok && path[len(path)-1] == "passAt"
-			}
-			if x.Op == "call" && x.Name == "(time.Time).Sub" && len(x.Args) == 2 && x.Args[0].Op == "call" && x.Args[0].Name == "time.Now" {
-				_, path, ok := x.Args[1].FieldPath()
-				return ok && path[len(path)-1] == "passAt"
-			}
-			return false
-		}
-		okForm := (cm.Op == token.LEQ || cm.Op == token.LSS) && isTimeout(cm.L) && isElapsed(cm.R) && cm.LC == 0 && cm.RC == 0
-		if !okForm {
-			problems = append(problems, "timeout predicate is "+cm.String()+", expected Timeout <= time.Since(passAt)")
-		}
-	}
-	c.R.Check(len(problems) == 0, "T4", joinKey(jr, fn, ""), p.Pos(fn.Pos()), "time.Since(passAt) >= Timeout", strings.Join(problems, "; "))
-}
 
 func (jr *joinRoles) hasTimedLoop() bool {
 	for _, fn := range jr.loops {
@@ -595,50 +365,6 @@ func (jr *joinRoles) hasTimedLoop() bool {
 	return false
 }
 
-// T2: after an emit passAt is reset before the emitting function chain returns to the loop,
-// and not between the flush decision and the send.
-func checkT2(c *Ctx, jr *joinRoles) {
-	p := jr.p
-	for _, fn := range []*ssa.Function{jr.flush, jr.forward} {
-		if fn == nil {
-			continue
-		}
-		var problems []string
-		fl := &Flow{P: p, ContextInsensitive: true}
-		fl.Instr = func(fr *Frame, st string, in ssa.Instruction) []string {
-			if _, ok := p.emitInstr(in); ok {
-				return []string{"emitted"}
-			}
-			if _, ok := fieldStore(in, "passAt"); ok {
-				if st == "emitted" {
-					return []string{"reset"}
-				}
-				return []string{"early"}
-			}
-			return nil
-		}
-		fl.Edge = func(fr *Frame, st string, from *ssa.BasicBlock, succ int) []string {
-			if _, ok := p.emitEdge(from, succ); ok {
-				return []string{"emitted"}
-			}
-			if p.stopEdge(from, succ) {
-				return []string{"stopped"}
-			}
-			if val, ok := p.unreleasedEdge(from, succ); ok && val {
-				return []string{"stopped"}
-			}
-			return nil
-		}
-		fl.Exit = func(fr *Frame, st string, ret *ssa.Return) []string {
-			if fr.Parent == nil && st == "emitted" {
-				problems = append(problems, "a path returns at "+p.InstrPos(ret)+" after the output send without re-setting passAt: the next timeout is measured from before this emission and the next slice is cut short")
-			}
-			return nil
-		}
-		fl.Run(fn, []string{"idle"})
-		c.R.Check(len(problems) == 0, "T2", joinKey(jr, fn, ""), p.Pos(fn.Pos()), "emit -> passAt reset on every path", strings.Join(dedup(problems), "; "))
-	}
-}
 
 // M2: interruptInterval == 0 selects the loop function without ticker.
 func checkM2(c *Ctx, jr *joinRoles) {
@@ -727,11 +453,11 @@ func checkM2(c *Ctx, jr *joinRoles) {
 func runC09(c *Ctx) {
 	r := c.R
 	r.Doc("J0", "role resolution", 3)
-	r.Doc("M1", "flush call sites: full / timeout in ticker clause / deferred end of input (unite: oversize, would not fit)", 12)
+	r.Doc("M1", "every send of the buffer happens under: full / timeout test true in the ticker clause / end of input (unite: oversize slice, slice would not fit)", 3)
 	r.Doc("M2", "interruptInterval == 0 -> the loop function without ticker", 3)
-	r.Doc("T2", "emit -> passAt reset before returning to the loop", 4)
-	r.Doc("T4", "timeout predicate: time.Since(passAt) >= Timeout", 3)
-	r.Doc("T1", "passAt is set by the constructor (the first timeout counts from creation) and otherwise only by flush/forward", 3)
+	r.Doc("T2", "emit -> passAt reset before the next receive", 5)
+	r.Doc("T4", "every timeout test is time.Since(passAt) >= Timeout", 3)
+	r.Doc("T1", "passAt is set by the constructor (the first timeout counts from creation) and otherwise only after a send, in the ticker clause or at the end - never on a path that only accepted an element", 3)
 	r.Doc("J6", "(greedy batching) after an ingest: flush or leave under len(B) < JoinSize", 3)
 	r.Doc("J7", "(greedy batching, unite) fit facts", 1)
 	for _, jr := range joinDiscs(c) {
@@ -750,9 +476,9 @@ func runC09(c *Ctx) {
 func runC10(c *Ctx) {
 	r := c.R
 	r.Doc("J0", "role resolution", 3)
-	r.Doc("T1", "passAt written only by the constructor and the flush/forward functions, never on the accept path", 3)
-	r.Doc("T3", "ticker clause: timeout-predicate true edge reaches the flush on every path", 3)
-	r.Doc("T4", "timeout predicate: time.Since(passAt) >= Timeout", 3)
+	r.Doc("T1", "passAt is set by the constructor and otherwise only after a send, in the ticker clause or at the end - never on a path that only accepted an element", 3)
+	r.Doc("T3", "ticker clause: the timeout is tested, and after a true answer the buffer is sent (or is empty) before the next select", 3)
+	r.Doc("T4", "every timeout test is time.Since(passAt) >= Timeout", 3)
 	r.Doc("T5", "ticker period = interruptInterval = timeout / (100 / inaccuracy) with error exits; default inaccuracy substituted", 6)
 	r.Doc("T6", "ticker clause and input clause in the same select", 3)
 	for _, jr := range joinDiscs(c) {
@@ -763,151 +489,7 @@ func runC10(c *Ctx) {
 	}
 }
 
-func checkT1(c *Ctx, jr *joinRoles) {
-	p := jr.p
-	var problems []string
-	writers := 0
-	allowed := map[*ssa.Function]bool{}
-	for f := range p.Reach(jr.flush) {
-		allowed[f] = true
-	}
-	if jr.forward != nil {
-		for f := range p.Reach(jr.forward) {
-			allowed[f] = true
-		}
-	}
-	// accept path: functions reachable from accept without going through flush/forward
-	acceptOnly := map[*ssa.Function]bool{}
-	var visit func(fn *ssa.Function)
-	visit = func(fn *ssa.Function) {
-		if fn == nil || acceptOnly[fn] || fn == jr.flush || fn == jr.forward || !p.IsProduct(fn) {
-			return
-		}
-		acceptOnly[fn] = true
-		for _, cal := range calledIn(p, fn) {
-			visit(cal)
-		}
-	}
-	visit(jr.accept)
-	for _, l := range jr.loops {
-		// the loop functions themselves (outside flush) must not write passAt either
-		acceptOnly[l] = true
-	}
-	for _, fn := range p.Funcs() {
-		if rel, _ := p.Rel(fn); rel != jr.d.Rel {
-			continue
-		}
-		for _, b := range fn.Blocks {
-			for _, in := range b.Instrs {
-				st, ok := fieldStore(in, "passAt")
-				if !ok || namedOrigin(st.Addr.(*ssa.FieldAddr).X.Type()) != jr.d.Named {
-					continue
-				}
-				writers++
-				// who can reach this writer function?
-				if acceptOnly[fn] {
-					problems = append(problems, "passAt is written at "+p.InstrPos(in)+" on the accept path (per received element): under a steady trickle the timeout never expires")
-				}
-				// direct callers on the accept path
-				for _, cs := range p.CallSites(fn) {
-					if acceptOnly[cs.Parent()] && !allowed[cs.Parent()] {
-						problems = append(problems, "passAt is re-set at "+p.InstrPos(cs)+" ("+shortFn(p, cs.Parent())+") outside the flush: a per-element reset postpones the flush forever under a steady trickle")
-					}
-				}
-			}
-		}
-	}
-	if writers == 0 {
-		problems = append(problems, "UNRESOLVED-ANCHOR: no write of passAt found")
-	}
-	// the constructor starts the clock before the goroutine runs
-	for _, ctor := range jr.d.Ctors {
-		started := false
-		for _, b := range ctor.Blocks {
-			for _, in := range b.Instrs {
-				if _, isGo := in.(*ssa.Go); isGo {
-					goto done
-				}
-				if _, ok := fieldStore(in, "passAt"); ok {
-					started = true
-				}
-				if call, ok := in.(*ssa.Call); ok {
-					if cal := p.Callee(call); cal != nil && p.IsProduct(cal) && p.mayWriteField(cal, "passAt") {
-						started = true
-					}
-				}
-			}
-		}
-	done:
-		if !started {
-			problems = append(problems, "the constructor does not set passAt before starting the goroutine: the timeout is measured from the zero time, so the first incomplete slice is flushed immediately instead of Timeout after creation")
-		}
-	}
-	c.R.Check(len(problems) == 0, "T1", jr.key, p.Pos(jr.accept.Pos()), fmt.Sprintf("%d writer(s) of passAt, reachable only from the constructor and flush/forward", writers), strings.Join(dedup(problems), "; "))
-}
 
-func checkT3T6(c *Ctx, jr *joinRoles) {
-	p := jr.p
-	found := false
-	for _, fn := range jr.loops {
-		for _, s := range Selects(fn) {
-			si := p.SelectInfo(s)
-			var tick, inp *SelCase
-			for _, cs := range si.Cases {
-				role := p.chanRole(cs.State.Chan)
-				if strings.HasPrefix(role, "ticker:") {
-					tick = cs
-				}
-				if role == "field:opts.Input" {
-					inp = cs
-				}
-			}
-			if tick == nil {
-				continue
-			}
-			found = true
-			c.R.Check(inp != nil && s.Blocking, "T6", joinKey(jr, fn, "select"), p.InstrPos(s), "ticker and input are clauses of one blocking select", "the ticker clause is not in the same blocking select as the input clause: while blocked on the input the timeout is never examined")
-			// T3: from the ticker clause body: predicate true edge must reach flush before leaving the body
-			var problems []string
-			if jr.timeout == nil {
-				problems = append(problems, "no timeout predicate tested in the ticker clause")
-			} else {
-				fl := &Flow{P: p, ContextInsensitive: true}
-				fl.Call = func(fr *Frame, st string, call ssa.CallInstruction, deferred bool) (bool, []string) {
-					if fr.Parent == nil && p.Callee(call) == jr.flush && !deferred {
-						if st == "expired" {
-							return true, []string{"flushed"}
-						}
-						return true, []string{st}
-					}
-					if fr.Parent == nil {
-						return true, []string{st} // do not descend: only the loop function's own structure matters
-					}
-					return false, nil
-				}
-				fl.Edge = func(fr *Frame, st string, from *ssa.BasicBlock, succ int) []string {
-					if p.edgeIsCallResult(CondEdge{from, succ}, func(f *ssa.Function) bool { return f == jr.timeout }, true) {
-						return []string{"expired"}
-					}
-					// re-entering the select header ends the clause
-					if from.Succs[succ] == s.Block() && st == "expired" {
-						problems = append(problems, "after the timeout predicate answered true control returns to the select at "+p.InstrPos(s)+" without calling the flush: an expired buffer is not delivered")
-					}
-					return nil
-				}
-				fl.Exit = func(fr *Frame, st string, ret *ssa.Return) []string { return nil }
-				fl.Run(fn, []string{"idle"})
-				if !fl.sawState("expired") {
-					problems = append(problems, "timeout predicate is never tested for true")
-				}
-			}
-			c.R.Check(len(problems) == 0, "T3", joinKey(jr, fn, "ticker"), p.InstrPos(s), "expired => flush before the next select", strings.Join(dedup(problems), "; "))
-		}
-	}
-	if !found {
-		c.R.Fail("T6", jr.key, "-", "UNRESOLVED-ANCHOR: no select with a ticker clause in the loop functions")
-	}
-}
 
 func checkT5(c *Ctx, jr *joinRoles) {
 	p := jr.p
@@ -940,18 +522,49 @@ func checkT5(c *Ctx, jr *joinRoles) {
 			}
 		}
 	}
-	// (b) ctor stores interruptInterval = result#0 of the calc function applied to (Timeout, TimeoutInaccuracy of normalised opts)
+	// (b) the constructor (or a helper it calls) stores interruptInterval = result#0 of the calc
+	// function applied to (Timeout, TimeoutInaccuracy of the normalised options)
 	ctor := jr.d.Ctors[0]
 	var calcCall *ssa.Call
-	for _, b := range ctor.Blocks {
-		for _, in := range b.Instrs {
-			st, ok := fieldStore(in, "interruptInterval")
-			if !ok {
+	inCtor := p.Reach(ctor)
+	var resolveUp func(v ssa.Value, depth int) ssa.Value
+	resolveUp = func(v ssa.Value, depth int) ssa.Value {
+		v = stripChangeType(v)
+		par, ok := v.(*ssa.Parameter)
+		if !ok || depth > 4 || par.Parent() == ctor {
+			return v
+		}
+		var found ssa.Value
+		for _, cs := range p.CallSites(par.Parent()) {
+			if !inCtor[cs.Parent()] {
 				continue
 			}
-			if ex, ok := st.Val.(*ssa.Extract); ok && ex.Index == 0 {
-				if call, ok := ex.Tuple.(*ssa.Call); ok && p.IsProduct(p.Callee(call)) {
-					calcCall = call
+			idx := paramIndex(par.Parent(), par)
+			if idx < 0 || idx >= len(cs.Common().Args) {
+				return v
+			}
+			a := resolveUp(cs.Common().Args[idx], depth+1)
+			if found != nil && found != a {
+				return v
+			}
+			found = a
+		}
+		if found == nil {
+			return v
+		}
+		return found
+	}
+	for fn := range inCtor {
+		for _, b := range fn.Blocks {
+			for _, in := range b.Instrs {
+				st, ok := fieldStore(in, "interruptInterval")
+				if !ok {
+					continue
+				}
+				if ex, ok := resolveUp(st.Val, 0).(*ssa.Extract); ok && ex.Index == 0 {
+					if call, ok := ex.Tuple.(*ssa.Call); ok && p.IsProduct(p.Callee(call)) {
+						calcCall = call
+					}
 				}
 			}
 		}
@@ -975,12 +588,46 @@ func checkT5(c *Ctx, jr *joinRoles) {
 	}
 	okArgs := strings.HasSuffix(a0, ".Timeout") && strings.HasSuffix(a1, ".TimeoutInaccuracy") && normalised
 	c.R.Check(okArgs, "T5", jr.key+"#ctor-args", p.InstrPos(calcCall), "computed from (Timeout, TimeoutInaccuracy) of the normalised options", "interval computed from ("+a0+", "+a1+"): expected Opts.Timeout and the normalised Opts.TimeoutInaccuracy (default substituted for 0)")
-	// error propagated before go
-	// (c) formula
+	// (c) formula: the non-zero results of the calc function, looking through wrappers that pass
+	// their parameters on and through helpers that compute a part of it (their single non-constant
+	// result is substituted)
 	calc := p.Callee(calcCall)
-	// follow a wrapper that passes its parameters through (v1)
-	var formulaFn *ssa.Function
+	var formulaFns []*ssa.Function
 	var forms []*Sym
+	var expand func(s *Sym, depth int) *Sym
+	expand = func(s *Sym, depth int) *Sym {
+		if s == nil || depth > 4 {
+			return s
+		}
+		if s.Op == "extract" && len(s.Args) == 1 && s.Args[0].Op == "call" {
+			if call, ok := s.Args[0].V.(*ssa.Call); ok {
+				if cal := p.Callee(call); cal != nil && p.IsProduct(cal) {
+					var idx int
+					fmt.Sscanf(s.Name, "%d", &idx)
+					var nz []*Sym
+					for _, r := range p.resultSyms(cal, idx) {
+						if _, isK := symConstInt(r); isK {
+							continue
+						}
+						nz = append(nz, r)
+					}
+					if len(nz) == 1 {
+						formulaFns = append(formulaFns, cal)
+						return p.substParams(call, cal, expand(nz[0], depth+1))
+					}
+				}
+			}
+		}
+		if len(s.Args) == 0 {
+			return s
+		}
+		n := *s
+		n.Args = make([]*Sym, len(s.Args))
+		for i, a := range s.Args {
+			n.Args[i] = expand(a, depth)
+		}
+		return &n
+	}
 	var collect func(fn *ssa.Function, depth int)
 	collect = func(fn *ssa.Function, depth int) {
 		for _, s := range p.resultSyms(fn, 0) {
@@ -989,7 +636,7 @@ func checkT5(c *Ctx, jr *joinRoles) {
 			}
 			if s.Op == "extract" && s.Args[0].Op == "call" && depth < 3 {
 				if call, ok := s.Args[0].V.(*ssa.Call); ok && p.IsProduct(p.Callee(call)) {
-					// parameters must be passed through in order
+					// a wrapper: parameters must be passed through in order
 					for i, a := range call.Call.Args {
 						if par, ok := a.(*ssa.Parameter); !ok || paramIndex(fn, par) != i {
 							forms = append(forms, &Sym{Op: "other", Name: "wrapper does not pass its parameters through"})
@@ -999,8 +646,8 @@ func checkT5(c *Ctx, jr *joinRoles) {
 					continue
 				}
 			}
-			formulaFn = fn
-			forms = append(forms, s)
+			formulaFns = append(formulaFns, fn)
+			forms = append(forms, expand(s, 0))
 		}
 	}
 	collect(calc, 0)
@@ -1023,56 +670,64 @@ func checkT5(c *Ctx, jr *joinRoles) {
 		}
 	}
 	c.R.Check(len(problems) == 0, "T5", jr.key+"#formula", p.Pos(calc.Pos()), "interval = timeout / (100 / inaccuracy)", strings.Join(dedup(problems), "; "))
-	// (d) guards on the success return
-	if formulaFn != nil {
-		var missing []string
-		for _, b := range formulaFn.Blocks {
-			ret, ok := b.Instrs[len(b.Instrs)-1].(*ssa.Return)
-			if !ok || b.Comment == "recover" {
+	// (d) guards on the success returns of the function(s) that compute the interval: the union over
+	// the formula function and the helpers whose results it uses
+	if len(formulaFns) > 0 {
+		haveInacc, haveDiv, haveInt := false, false, false
+		seenFn := map[*ssa.Function]bool{}
+		for _, ffn := range formulaFns {
+			if seenFn[ffn] {
 				continue
 			}
-			if k, isK := symConstInt(p.Sym(ret.Results[0])); isK && k == 0 {
-				continue
-			}
-			if len(ret.Results) == 2 && !isNilConst(ret.Results[1]) {
-				continue
-			}
-			haveInacc, haveDiv, haveInt := false, false, false
-			for _, e := range DomEdges(b) {
-				iff := e.From.Instrs[len(e.From.Instrs)-1].(*ssa.If)
-				cm := p.NormCmp(iff.Cond, e.Succ == 0)
-				if cm == nil {
+			seenFn[ffn] = true
+			for _, b := range ffn.Blocks {
+				ret, ok := b.Instrs[len(b.Instrs)-1].(*ssa.Return)
+				if !ok || b.Comment == "recover" {
 					continue
 				}
-				l, rr := deepStrip(cm.L), deepStrip(cm.R)
-				nonzero := func(x, y *Sym) bool { // x != 0 or 0 < x (or const <= x)
-					return (cm.Op == token.NEQ || cm.Op == token.LSS || cm.Op == token.LEQ) && (y.Op == "const")
+				if k, isK := symConstInt(p.Sym(ret.Results[0])); isK && k == 0 {
+					continue
 				}
-				for _, pair := range [][2]*Sym{{l, rr}, {rr, l}} {
-					x, y := pair[0], pair[1]
-					if !nonzero(x, y) {
+				if len(ret.Results) == 2 && !isNilConst(ret.Results[1]) {
+					continue
+				}
+				for _, e := range DomEdges(b) {
+					iff := e.From.Instrs[len(e.From.Instrs)-1].(*ssa.If)
+					cm := p.NormCmp(iff.Cond, e.Succ == 0)
+					if cm == nil {
 						continue
 					}
-					switch {
-					case x.Op == "param":
-						haveInacc = true
-					case x.Op == "bin" && x.Name == "/" && x.Args[1].Op == "param" && x.Args[0].Op == "const":
-						haveDiv = true
-					case x.Op == "bin" && x.Name == "/" && x.Args[0].Op == "param":
-						haveInt = true
+					l, rr := deepStrip(expand(cm.L, 0)), deepStrip(expand(cm.R, 0))
+					nonzero := func(x, y *Sym) bool { // x != 0 or 0 < x (or const <= x)
+						return (cm.Op == token.NEQ || cm.Op == token.LSS || cm.Op == token.LEQ) && (y.Op == "const")
+					}
+					for _, pair := range [][2]*Sym{{l, rr}, {rr, l}} {
+						x, y := pair[0], pair[1]
+						if !nonzero(x, y) {
+							continue
+						}
+						switch {
+						case x.Op == "param":
+							haveInacc = true
+						case x.Op == "bin" && x.Name == "/" && x.Args[1].Op == "param" && x.Args[0].Op == "const":
+							haveDiv = true
+						case x.Op == "bin" && x.Name == "/" && x.Args[0].Op == "param":
+							haveInt = true
+						}
 					}
 				}
 			}
-			if !haveInacc {
-				missing = append(missing, "inaccuracy == 0 is not rejected (division by zero)")
-			}
-			if !haveDiv {
-				missing = append(missing, "100/inaccuracy == 0 (inaccuracy > 100) is not rejected (division by zero)")
-			}
-			if !haveInt {
-				missing = append(missing, "a zero ticker period is not rejected (time.NewTicker panics)")
-			}
 		}
-		c.R.Check(len(missing) == 0, "T5", jr.key+"#errors", p.Pos(formulaFn.Pos()), "inaccuracy 0, divider 0 and zero period are rejected", strings.Join(dedup(missing), "; "))
+		var missing []string
+		if !haveInacc {
+			missing = append(missing, "inaccuracy == 0 is not rejected (division by zero)")
+		}
+		if !haveDiv {
+			missing = append(missing, "100/inaccuracy == 0 (inaccuracy > 100) is not rejected (division by zero)")
+		}
+		if !haveInt {
+			missing = append(missing, "a zero ticker period is not rejected (time.NewTicker panics)")
+		}
+		c.R.Check(len(missing) == 0, "T5", jr.key+"#errors", p.Pos(formulaFns[0].Pos()), "inaccuracy 0, divider 0 and zero period are rejected", strings.Join(dedup(missing), "; "))
 	}
 }
